@@ -1649,6 +1649,91 @@ func (x *c02srcTr) startNextFn() string {
 	return b.String()
 }
 
+// confForward (round 6): what a `New…Conf(conf T)` wrapper hands to the constructor it wraps. The body must be a sequence
+// of `x := <expr>` followed by ONE `return <Ctor>(args…)`; every argument is traced through the local aliases back to a
+// field of the config parameter. The result is "<Ctor>(<Field>, <Field>...)" with `...` for a spread slice, or — when an
+// argument is anything but a field handed over unchanged (a conversion, a filter loop, arithmetic) — "OTHER: <source>".
+// Renamed locals and an intermediate variable do not change it; dropping, truncating or reordering what is handed over does.
+func (x *c02srcTr) confForward(fn string) string {
+	var fd *ast.FuncDecl
+	for _, f := range x.p.Syntax {
+		for _, d := range f.Decls {
+			if g, ok := d.(*ast.FuncDecl); ok && g.Recv == nil && g.Name.Name == fn && g.Body != nil {
+				fd = g
+			}
+		}
+	}
+	if fd == nil || fd.Type.Params.NumFields() != 1 || len(fd.Type.Params.List[0].Names) != 1 {
+		return "OTHER: no such wrapper"
+	}
+	info := x.p.TypesInfo
+	conf := info.Defs[fd.Type.Params.List[0].Names[0]]
+	alias := map[types.Object]string{}
+	var field func(e ast.Expr) (string, bool)
+	field = func(e ast.Expr) (string, bool) {
+		switch v := e.(type) {
+		case *ast.ParenExpr:
+			return field(v.X)
+		case *ast.Ident:
+			if f, ok := alias[info.Uses[v]]; ok {
+				return f, true
+			}
+		case *ast.SelectorExpr:
+			if id, ok := v.X.(*ast.Ident); ok && info.Uses[id] == conf {
+				return v.Sel.Name, true
+			}
+		}
+		return "", false
+	}
+	body := fd.Body.List
+	for i, st := range body {
+		switch v := st.(type) {
+		case *ast.AssignStmt:
+			if len(v.Lhs) == 1 && len(v.Rhs) == 1 {
+				if id, ok := v.Lhs[0].(*ast.Ident); ok {
+					if f, ok := field(v.Rhs[0]); ok {
+						o := info.Defs[id]
+						if o == nil {
+							o = info.Uses[id]
+						}
+						alias[o] = f
+						continue
+					}
+				}
+			}
+			return "OTHER: " + x.src(st)
+		case *ast.ReturnStmt:
+			if i != len(body)-1 || len(v.Results) != 1 {
+				return "OTHER: " + x.src(st)
+			}
+			call, ok := v.Results[0].(*ast.CallExpr)
+			if !ok {
+				return "OTHER: " + x.src(st)
+			}
+			ctor, ok := call.Fun.(*ast.Ident)
+			if !ok {
+				return "OTHER: " + x.src(st)
+			}
+			var args []string
+			for _, a := range call.Args {
+				f, ok := field(a)
+				if !ok {
+					return "OTHER: " + x.src(st)
+				}
+				args = append(args, f)
+			}
+			out := ctor.Name + "(" + strings.Join(args, ", ")
+			if call.Ellipsis.IsValid() {
+				out += "..."
+			}
+			return out + ")"
+		default:
+			return "OTHER: " + x.src(st)
+		}
+	}
+	return "OTHER: no return"
+}
+
 func c02srcExtra(t *tr) string {
 	x := &c02srcTr{t: t, p: t.pkg}
 	var b strings.Builder
@@ -1667,5 +1752,14 @@ func c02srcExtra(t *tr) string {
 	b.WriteString(x.startNextFn())
 	b.WriteString("end\n\n")
 	b.WriteString(x.stmtSet("compositeSchedule", "Start", "compositeSchedule_Start", "its statements (receiver `s`, parameter `t`), sorted", true))
+	b.WriteString("/-- regenerated from core/schedule: what each config wrapper hands to the constructor it wraps, every argument traced\nthrough local aliases back to a field of the config (anything else — a conversion, a filter, arithmetic — is `OTHER: <source>`) -/\n")
+	b.WriteString("def confForwards : List (String × String) :=\n  [")
+	for i, fn := range []string{"NewCompositeConf", "NewInstanceStepConf", "NewUnlimitedConf"} {
+		if i > 0 {
+			b.WriteString(",\n   ")
+		}
+		b.WriteString("(" + strconv.Quote(fn) + ", " + strconv.Quote(x.confForward(fn)) + ")")
+	}
+	b.WriteString("]\n\n")
 	return b.String()
 }
